@@ -1461,6 +1461,17 @@ class Mailbox:
         msg key in the list of msg_keys.
         """
         idx = self._uid_to_idx[uid]
+
+        # NOTE: The reverse index is rebuilt when an expunge has finished
+        #       removing its messages. A reader that is not queued behind it
+        #       (POP3) may look a UID up in between: trust the index only if
+        #       the UID is where it says, otherwise find it where it is now.
+        #
+        if idx >= len(self.uids) or self.uids[idx] != uid:
+            try:
+                idx = self.uids.index(uid)
+            except ValueError:
+                raise KeyError(uid) from None
         return self.get_msg(self.msg_keys[idx])
 
     ####################################################################
